@@ -45,7 +45,8 @@ def run(tier, rep, ev):
         names0, data0 = damage.pristine_map(py7zr, raw, pw)
         targets = [[names0[-1]], [names0[0]]] if names0 else [[]]
         multi = "1folders" not in label
-        cases.append((raw, pw, names0, data0, targets, False))
+        todir = ":todir:" in label
+        cases.append((raw, pw, names0, data0, targets, False, False, todir))
         meta.append({"e": "img", "archive": label, "region": "none", "damage": "intact", "what": "", "intact": True})
         if multi:
             cases.append((raw, pw, names0, data0, targets, True))
@@ -61,7 +62,7 @@ def run(tier, rep, ev):
             if multi:
                 modes = [True, False] if tier != "quick" else [len(cases) % 2 == 1]
             for bypath in modes:
-                cases.append((img, pw, names0, data0, targets, bypath, bypath and len(cases) % 8 == 1))      # every 8th by-name image: worker processes too
+                cases.append((img, pw, names0, data0, targets, bypath, bypath and len(cases) % 8 == 1, todir))      # every 8th by-name image: worker processes too
                 meta.append({"e": "img", "archive": label, "region": region, "damage": kind, "what": what + (" (by name)" if bypath else ""), "intact": False})
     outs = sandbox.run_cases(damage.probe, cases, timeout=30, nproc=16, slice_size=40, mem=2 << 30, max_hangs=40)
     traces, origins = [], []
